@@ -58,6 +58,12 @@ pub struct MockIo {
     pub unified: Option<VecDeque<String>>,
     /// replay mode: the implementation made a write-side call that does not fit the recorded event
     pub diverged: bool,
+    /// a server that answers only what it has received: (offset into the server's output, bytes the client
+    /// must have written before the output from that offset on is sent).  Empty = the server's output
+    /// does not depend on the client (the default).
+    pub gates: Vec<(usize, usize)>,
+    /// bytes of the server's output delivered so far
+    pub drained: usize,
 }
 
 impl MockIo {
@@ -69,7 +75,12 @@ impl MockIo {
     }
     /// nothing more will ever arrive and nothing is scripted: a Pending now is final
     pub fn read_side_silent(&self) -> bool {
-        self.incoming.is_empty() && !self.eof_at_end
+        (self.incoming.is_empty() && !self.eof_at_end) || (!self.incoming.is_empty() && self.available() == 0)
+    }
+    /// bytes of the server's output the transport may deliver now (all of it unless a gate is closed)
+    pub fn available(&self) -> usize {
+        let limit = self.gates.iter().find(|(_, need)| *need > self.written.len()).map(|(off, _)| *off).unwrap_or(usize::MAX);
+        std::cmp::min(self.incoming.len(), limit.saturating_sub(self.drained))
     }
 }
 
@@ -100,7 +111,7 @@ impl AsyncRead for MockIo {
                 Poll::Pending
             }
             RDir::Go(k) => {
-                let n = std::cmp::min(std::cmp::min(std::cmp::max(k, 1), me.incoming.len()), buf.remaining());
+                let n = std::cmp::min(std::cmp::min(std::cmp::max(k, 1), me.available()), buf.remaining());
                 if n == 0 {
                     if me.incoming.is_empty() && me.eof_at_end {
                         me.revents.push("e".to_string());
@@ -113,6 +124,7 @@ impl AsyncRead for MockIo {
                     }
                 } else {
                     let chunk: Vec<u8> = me.incoming.drain(..n).collect();
+                    me.drained += n;
                     buf.put_slice(&chunk);
                     me.revents.push(format!("d{}", hex(&chunk)));
                     Poll::Ready(Ok(()))
